@@ -28,7 +28,7 @@ internal/imapwire and internal (ExpectFlag ...) cannot be imported from the harn
 check adds one file to the go-imap module at build time with `go build -overlay` (package
 verifwire, harness/cmd/wire/testdata/verifwire/shim.go); nothing is written into the repository.
 """
-import json, os, re
+import json, os, re, time
 from concurrent.futures import ThreadPoolExecutor
 import vlib
 
@@ -148,6 +148,12 @@ def count_notes(notes):
 def run(ctx):
     quick = ctx.tier == "quick"
     ctx.specdir()
+    phases, t0 = {}, time.time()
+
+    def lap(name):
+        nonlocal t0
+        phases[name] = round(time.time() - t0, 1)
+        t0 = time.time()
     # 1. design level, 2. generator, harness build: side by side
     with ThreadPoolExecutor(max_workers=3) as ex:
         f_mc = ex.submit(ctx.tlc, "Wire", "Wire_mc.cfg" if quick else "Wire_mc_thorough.cfg", 8, None, 1500)
@@ -160,6 +166,8 @@ def run(ctx):
     if g.status != "ok":
         raise vlib.Infra("generator failed: %s\n%s" % (g.cmd, g.detail or g.tail))
     nvec = vlib.count_lines(g.out_path, '<<"T"')
+    lap("mc+gen+build")
+    phases["mc"], phases["gen"] = round(mc.wall, 1), round(g.wall, 1)
     # 2. spec -> impl
     enc_tr = os.path.join(ctx.scratch, "wire-enc.ndjson")
     recs, _, _ = ctx.harness(binp, ["replay", g.out_path, enc_tr], timeout=1500)
@@ -177,10 +185,12 @@ def run(ctx):
     recs, _, _ = ctx.harness(binp, ["random", rnd_tr, "-seed", ctx.seed, "-scale", 2 if quick else 6], timeout=900)
     s2 = ctx.summary(recs)
     ctx.take_mismatches(recs)
+    lap("harness")
     with ThreadPoolExecutor(max_workers=2) as ex:
-        f1 = ex.submit(judge_all, ctx, enc_tr, "enc", 1 if quick else 6)
+        f1 = ex.submit(judge_all, ctx, enc_tr, "enc", 2 if quick else 6)
         f2 = ex.submit(judge_all, ctx, rnd_tr, "rnd", 1 if quick else 3)
         (bad1, notes1), (bad2, notes2) = f1.result(), f2.result()
+    lap("judge")
     report(ctx, enc_tr, bad1, "bounded")
     report(ctx, rnd_tr, bad2, "random")
     bad_lines1 = {b["line"] for b in bad1}
@@ -196,6 +206,7 @@ def run(ctx):
                                  "dec": [{"f": d["f"], "left": d["left"]} for d in r0["dec"][:2]]}})
     # 4. binding demonstration
     demo = binding_demo(ctx, enc_tr, bad_lines1)
+    lap("binding_demo")
     notes = count_notes(notes1 + notes2)
     if notes:
         ctx.notes.append("observations the statement does not forbid (WireTrace NOTE lines): %s" % json.dumps(notes, sort_keys=True))
@@ -208,9 +219,9 @@ def run(ctx):
     ctx.finish(rule="behaviour = one value of the bounded space (run through the real Encoder in all 16 modes, both list "
                "APIs, and through the peer's real decoding functions; plus every listed representation through the "
                "receiving side's decoding functions) or one recorded group of modes of a random value; non-trivial = "
-               "the value must be refused, or one of its representations is a literal, a list, or contains an escape "
-               "or a modified-UTF-7 shift; distinct by construction (enumeration without repetition)",
-               extra={"binding_demo": demo, "mc_states": mc.distinct, "gen_values": nvec,
+               "in some mode the real encoder refused the value or wrote a literal, an escape, a list, a "
+               "modified-UTF-7 shift or folded the name to INBOX (i.e. did more than put the value between quotes); distinct by construction (enumeration without repetition)",
+               extra={"binding_demo": demo, "phase_wall_s": phases, "mc_states": mc.distinct, "gen_values": nvec,
                       "decoder_cases": s["decoder_cases"], "rep_classes": s["rep_classes"],
                       "encoder_runs": s["encoder_runs"], "encoder_refusals": s["encoder_refusals"],
                       "encoder_literals": s["encoder_literals"], "bounded_records": s["records"],
@@ -258,8 +269,11 @@ def binding_demo(ctx, tr, bad_lines):
             picks.append(("refused empty number set recorded as written", i, rec, "enc/accepts-unrepresentable/seqset/empty"))
             break
     if len(picks) < 4:
-        raise vlib.Infra("binding demonstration: no suitable record (%d of 4)" % len(picks))
-    if ctx.tier == "quick":
+        # records of that shape exist in every run; if they were all rejected there is a verdict
+        # already and the demonstration runs on what is left
+        if not (ctx.violations or ctx.known_hits) or not picks:
+            raise vlib.Infra("binding demonstration: no suitable record (%d of 4)" % len(picks))
+    elif ctx.tier == "quick":
         picks = picks[:3]
     p = os.path.join(ctx.scratch, "wire-corrupt.ndjson")
     ctx_lines = [l for j, l in enumerate(lines[:40]) if (j + 1) not in bad_lines and len(l) < 3000][:3]
